@@ -427,11 +427,19 @@ def footprint(world, pre, post, res):
 
 def c18_twins(cfg, recipes):
     a = runner.execute_run(dict(cfg), recipes=copy.deepcopy(recipes), keep_snapshots=True)
+    if sum(1 for r in recipes if r["do"] == "mk_env") > 5:
+        # pairwise distinct labels for that many photons mean Fock numbers (and cut-offs) beyond what a
+        # step budget allows: no twin for this run
+        return a, None
     b = runner.execute_run(dict(cfg), recipes=copy.deepcopy(distinct_values(recipes)), keep_snapshots=True)
+    if b.harness_error:
+        return a, None
     return a, b
 
 
 def compare_footprints(a, b):
+    if b is None:
+        return None, None
     ib = {r["sid"]: k for k, r in enumerate(b.recipes)}
     for ka, r in enumerate(a.recipes):
         sid = r["sid"]
